@@ -67,6 +67,54 @@ def _key_class(node) -> str:
     return 'KRaw'
 
 
+def _key_source(node: ast.expr, fn: ast.AST) -> str:
+    """Where the value that is folded into an index key comes from.
+    SGet "k"  : <entity>['k'] / <entity>['k', ''] / <entity>.get('k'...)  (Entity.__getitem__: case-insensitive lookup)
+    SOrig     : a variable assigned from self._keys.get(...) / self._keys[...] in this function (the previous value)
+    SNew      : a variable assigned from conv_kv(...) in this function (the value being stored)
+    SLitKey   : a literal key;   SOther : anything else."""
+    if isinstance(node, ast.Constant):
+        return 'SLitKey'
+    if isinstance(node, ast.BoolOp) and isinstance(node.op, ast.Or) and len(node.values) == 2 \
+            and isinstance(node.values[1], ast.Constant) and node.values[1].value is None:
+        node = node.values[0]
+    if not (isinstance(node, ast.Call) and isinstance(node.func, ast.Attribute) and node.func.attr == 'casefold' and not node.args):
+        return 'SOther'
+    v = node.func.value
+    if isinstance(v, ast.BoolOp) and isinstance(v.op, ast.Or) and len(v.values) == 2 \
+            and isinstance(v.values[1], ast.Constant) and v.values[1].value == '':
+        v = v.values[0]                                   # (orig_val or '')
+    if isinstance(v, ast.Subscript) and isinstance(v.value, ast.Name):
+        k = v.slice
+        if isinstance(k, ast.Tuple) and len(k.elts) == 2 and isinstance(k.elts[1], ast.Constant) and k.elts[1].value == '':
+            k = k.elts[0]
+        if isinstance(k, ast.Constant) and isinstance(k.value, str) and k.value.isidentifier():
+            return f'(SGet "{k.value}" "{v.value.id}")'
+        return 'SOther'
+    if isinstance(v, ast.Name):
+        for n in ast.walk(fn):
+            if isinstance(n, ast.Assign) and any(isinstance(t, ast.Name) and t.id == v.id for t in n.targets):
+                val = n.value
+                if isinstance(val, ast.Call) and isinstance(val.func, ast.Name) and val.func.id == 'conv_kv':
+                    return 'SNew'
+                if any(_is_attr(x, '_keys') for x in ast.walk(val)):
+                    return 'SOrig'
+        return 'SOther'
+    return 'SOther'
+
+
+def _branch(tests: list[str]) -> str:
+    """Which keyvalue the innermost positive enclosing test is about."""
+    for t in reversed(tests):
+        if t.startswith('not ('):
+            continue
+        if "'classname'" in t:
+            return 'classname'
+        if "'targetname'" in t:
+            return 'targetname'
+    return ''
+
+
 def _guard_tests(fn: ast.AST, target: ast.AST) -> list[str]:
     """Source text of the tests of all `if` statements enclosing `target` inside `fn` (body side only)."""
     out: list[str] = []
@@ -168,6 +216,7 @@ def _entity_list_writers(qual: str, fn: ast.AST, rel: str, out_list: list, out_s
 
 def translate() -> tuple[str, dict]:
     key_escapes: list[tuple[str, str, str, int]] = []
+    key_sources: list[tuple] = []      # func, index, is_add, source, entity expression, branch
     ent_list_writers: list[tuple[str, str, str, int]] = []
     spawn_writers: list[tuple[str, str, str, int]] = []
     key_writers: list[tuple[str, str, str, int]] = []     # func, how, file, line
@@ -221,6 +270,11 @@ def translate() -> tuple[str, dict]:
                                 tests = ' ; '.join(_guard_tests(fn, node))
                                 guarded = ('self.map.entities' in tests) or ('self.map.spawn' in tests)
                             index_sites.append((qual, ix, 'add', _key_class(recv.slice), guarded, rel, node.lineno))
+                            ent = '?'
+                            if len(node.args) == 1 and isinstance(node.args[0], (ast.Name, ast.Attribute)):
+                                ent = ast.unparse(node.args[0])
+                            key_sources.append((qual, ix, True, _key_source(recv.slice, fn), ent,
+                                                _branch(_guard_tests(fn, node)) if cls == 'Entity' else ''))
                         elif meth in ('discard', 'remove', 'clear', 'update', 'pop', 'difference_update',
                                       'intersection_update', 'symmetric_difference_update'):
                             raise TranslateError(f'{rel}:{node.lineno}: index set mutated with .{meth} in {qual}')
@@ -230,6 +284,10 @@ def translate() -> tuple[str, dict]:
                     if len(node.args) != 3 or _index_of(node.args[0]) is None:
                         raise TranslateError(f'{rel}:{node.lineno}: unrecognised _remove_copyset call in {qual}')
                     index_sites.append((qual, _index_of(node.args[0]), 'remove', _key_class(node.args[1]), True, rel, node.lineno))
+                    ent = node.args[2].id if isinstance(node.args[2], ast.Name) else (
+                        ast.unparse(node.args[2]) if isinstance(node.args[2], ast.Attribute) else '?')
+                    key_sources.append((qual, _index_of(node.args[0]), False, _key_source(node.args[1], fn), ent,
+                                        _branch(_guard_tests(fn, node)) if cls == 'Entity' else ''))
     if not key_writers or not index_sites:
         raise TranslateError('no Entity._keys writer / index update site found: vmf.py not recognised')
     for need in ('VMF.search', 'Entity.make_unique', '_remove_copyset'):
@@ -255,6 +313,12 @@ def translate() -> tuple[str, dict]:
         'Definition spawn_writers : list (string * string) := [',
         ';\n'.join(f'  ("{f}", "{h}")' for f, h in sorted({(f, h) for f, h, _, _ in spawn_writers})),
         '].',
+        '(* where the folded value of every index update comes from: function, index, is_add, source, the entity',
+        '   added / removed, the keyvalue the enclosing branch of an Entity method is about *)',
+        'Inductive keysrc := SGet (key ent : string) | SOrig | SNew | SLitKey | SOther.',
+        'Definition index_key_sources : list (string * string * bool * keysrc * string * string) := [',
+        ';\n'.join(f'  ("{f}", "{ix}", {"true" if a else "false"}, {src}, "{ent}", "{br}")' for f, ix, a, src, ent, br in key_sources),
+        '].',
         '(* every update of by_class / by_target: function, index, is_add, class of the key expression, guarded *)',
         'Definition index_sites : list (string * string * bool * keyclass * bool) := [',
         ';\n'.join(f'  ("{f}", "{ix}", {"true" if k == "add" else "false"}, {kc}, {"true" if g else "false"})'
@@ -265,7 +329,7 @@ def translate() -> tuple[str, dict]:
     if not ent_list_writers or not spawn_writers:
         raise TranslateError('no VMF.entities writer / VMF.spawn assignment found: vmf.py not recognised')
     side = {'key_writers': [list(k) for k in key_writers], 'index_sites': [list(s) for s in index_sites],
-            'key_escapes': [list(k) for k in key_escapes], 'entity_list_writers': [list(k) for k in ent_list_writers],
+            'key_escapes': [list(k) for k in key_escapes], 'key_sources': [list(k) for k in key_sources], 'entity_list_writers': [list(k) for k in ent_list_writers],
             'spawn_writers': [list(k) for k in spawn_writers], 'digests': digests}
     return '\n'.join(lines), side
 
